@@ -44,7 +44,7 @@ REQUIRED = {
 
 
 def run(ctx):
-    for fn in (r1_shortcut, r2_flag_table, r3_symmetry, r3b_steps_reach_the_result, r4_regex_facts, r6_verdict_sources, r7_regex_call_shape, r8_wildcard_bounds, r9_quote_removal, r10_comparison_does_not_write_state, r11_run_state_is_forwarded, r12_got_want_roles, r4c_ansi_sequences):
+    for fn in (r1_shortcut, r2_flag_table, r3_symmetry, r3b_steps_reach_the_result, r4_regex_facts, r6_verdict_sources, r7_regex_call_shape, r8_wildcard_bounds, r9_quote_removal, r10_comparison_does_not_write_state, r11_run_state_is_forwarded, r12_got_want_roles, r4c_ansi_sequences, r4d_blankline_marker_lines):
         ctx.rep.rule(fn, ctx)
 
 
@@ -1013,12 +1013,36 @@ def r3b_steps_reach_the_result(ctx):
                    anchor=NORM)
 
 
+def r4d_blankline_marker_lines(ctx):
+    """REGEX-FACT (finite samples on the folded pattern): `<BLANKLINE>` on a line of its own stands for an empty line -- wherever that line is (first,
+    middle, last, several in a row) the marker line becomes an empty line and no other line changes"""
+    import re as _re
+    from .common import fold_text, folded_flags
+    rep = ctx.rep
+    f = ctx.func('xdoctest.checker.remove_blankline_marker')
+    subs = [c for c in walk_scope(f.node) if isinstance(c, ast.Call) and isinstance(c.func, ast.Attribute) and is_name(c.func.value, 're') and c.func.attr == 'sub' and len(c.args) >= 3]
+    rep.floor('C05.R4d', 'substitutions in remove_blankline_marker', len(subs), 1)
+    marker = consts.Folder(ctx.prog).module_const('xdoctest.checker', 'BLANKLINE_MARKER')
+    for c in subs:
+        pat, repl, fl = fold_text(ctx, f, c.args[0]), fold_text(ctx, f, c.args[1]), folded_flags(ctx, f, c, 4)
+        bad = []
+        for text in (marker + '\nbar', 'a\n' + marker + '\nb', 'a\n' + marker, 'a\n' + marker + '\n' + marker + '\nb', marker + '\n' + marker + '\nz', 'a\nb', 'no marker here'):
+            want = '\n'.join('' if ln == marker else ln for ln in text.split('\n'))
+            got = _re.sub(pat, repl, text, flags=fl)
+            if got != want:
+                bad.append((text, got))
+        rep.ob('C05.R4d', ctx.loc(f, c), 're.sub(%r, %r, text)' % (pat[:40], repl), not bad,
+               'a marker line becomes an empty line in every position (7 samples)' if not bad else
+               'the marker pattern rewrites %s: a want that uses <BLANKLINE> in that position no longer equals the output it describes' % bad, anchor=f.qualname)
+
+
 # ---------------------------------------------------------------------------
 from ..selftest import fire, silent      # noqa: E402
 
 CK = 'xdoctest/checker.py'
 US = 'xdoctest/utils/util_str.py'
 VARIANTS = [
+    fire('blankline-marker-on-the-first-line', 'C05.R4d', (CK, "        '{pos_lb}{marker}\\n', '{marker}\\n',\n", "        '{pos_lb}{marker}\\n',\n")),
     fire('visible-text-of-the-want-dropped', 'C05.R3b', (CK, "    want = ''.join(want_lines)\n", "    pass\n")),
     fire('prefix-normalisation-switched-off', 'C05.R3b', (CK, "    if True:\n        # normalize python 2/3 byte/unicode prefixes\n", "    if not True:\n        # normalize python 2/3 byte/unicode prefixes\n")),
     fire('ansi-pattern-needs-a-parameter-byte', 'C05.R4c', ('xdoctest/utils/util_str.py', "(\\x9B|\\x1B\\[)[0-?]*[ -/]*[@-~]", "(\\x9B|\\x1B\\[)[0-?]+[ -/]*[@-~]")),
